@@ -89,6 +89,8 @@ func (mon) Plan(prop, tier string, seed int64) []drv.Shard {
 			parts = 2
 			add("ctx", 0, false)
 			add("ctx", 0, false, "GOMAXPROCS=2")
+			parts = 4
+			add("dwell", 0, false)
 			parts = p
 		}
 		if thorough {
@@ -100,6 +102,14 @@ func (mon) Plan(prop, tier string, seed int64) []drv.Shard {
 	case "C08":
 		add("hol", 0, false)
 		add("rand", nrand/parts, false)
+		{
+			p := parts
+			parts = 4
+			add("dwell", 0, false)
+			parts = 2
+			add("hol", 0, true) // the same scenarios under the race detector
+			parts = p
+		}
 		if thorough {
 			add("hol", 0, false, "GOMAXPROCS=2")
 			add("rand", nrand/parts/2, false, "GOMAXPROCS=4")
@@ -107,6 +117,12 @@ func (mon) Plan(prop, tier string, seed int64) []drv.Shard {
 	case "C14":
 		add("status", 0, false)
 		add("rand", nrand/parts, false)
+		{
+			p := parts
+			parts = 4
+			add("dwell", 0, false)
+			parts = p
+		}
 		if thorough {
 			add("status", 0, false, "GOMAXPROCS=2")
 		}
@@ -297,6 +313,17 @@ func holScenarios(seed int64) []Scenario {
 			}
 		}
 	}
+	// wide lanes, used the moment New returns: laneSize long tasks all pushed to lane 0 must all be
+	// running at rest (a worker that is not yet listening for other lanes' tasks would leave some waiting)
+	for _, ls := range []int{32, 64, 256} {
+		for rep := 0; rep < 4; rep++ {
+			var pushes []PushSpec
+			for i := 0; i < ls; i++ {
+				pushes = append(pushes, PushSpec{Lane: 0, Task: TaskSpec{Kind: "gate"}})
+			}
+			out = append(out, Scenario{LaneSize: ls, QueueSize: 1, TimeoutMs: 3600000, Producers: [][]PushSpec{pushes}, Cancel: CancelPlan{Kind: "none"}, PostPush: 0})
+		}
+	}
 	// a history first: a burst through one lane is pushed and drained, then every *other* worker
 	// is pinned and a probe is pushed to a pinned lane - the only idle worker is the one that
 	// served the burst, and it must still pick up work of other lanes
@@ -321,6 +348,40 @@ func holScenarios(seed int64) []Scenario {
 				sc.SlowPoint = []string{"worker.beforeBlockingRecv", "worker.loop", "queue.beforeOffer", "worker.beforeRecv", "queue.afterHandover", ""}[rep]
 				out = append(out, sc)
 			}
+		}
+	}
+	for i := range out {
+		out[i].Seed = seed + int64(i)
+	}
+	return out
+}
+
+// dwellScenarios (C06/C08/C14): a lane at rest stays as it is, however long it rests. Each scenario
+// rests twice for DwellMs of real time: idle after a warm-up burst (every worker has run a task and
+// parked again), and loaded (workers pinned, tasks held and queued). Then the usual structural
+// judgements: population, exact pending count, every accepted task started exactly once, head of line.
+func dwellScenarios(seed int64, ms []int) []Scenario {
+	var out []Scenario
+	for _, d := range ms {
+		for i, cfg := range [][2]int{{1, 0}, {2, 1}, {3, 2}, {4, 0}} {
+			ls, qs := cfg[0], cfg[1]
+			var warm []PushSpec
+			for k := 0; k < 2*ls; k++ {
+				warm = append(warm, PushSpec{Lane: k % ls, Task: TaskSpec{Kind: kinds[k%3]}})
+			}
+			var pushes []PushSpec
+			for k := 0; k < ls*(qs+1); k++ {
+				pushes = append(pushes, PushSpec{Lane: k % ls, Task: TaskSpec{Kind: "instant"}})
+			}
+			tmo := 3600000
+			if i%2 == 1 {
+				tmo = 1000 // the default push timeout
+			}
+			pins := seq(ls)
+			if i == 2 {
+				pins = seq(ls - 1) // one worker stays idle through the loaded dwell
+			}
+			out = append(out, Scenario{LaneSize: ls, QueueSize: qs, TimeoutMs: tmo, Warmup: warm, Pins: pins, Producers: [][]PushSpec{pushes}, Cancel: CancelPlan{Kind: "none"}, PostPush: 1, DwellMs: d, Pollers: i % 2})
 		}
 	}
 	for i := range out {
@@ -491,6 +552,19 @@ func statusScenarios(seed int64) []Scenario {
 				gp = append(gp, PushSpec{Lane: i % ls, Task: TaskSpec{Kind: "panic", Panic: ptypes[(i+2)%5]}})
 			}
 			out = append(out, Scenario{LaneSize: ls, QueueSize: qs, TimeoutMs: 3600000, Producers: [][]PushSpec{gp}, Cancel: CancelPlan{Kind: "none"}, Pollers: 4, PostPush: 0})
+			// the context is cancelled while the gated tasks run; they panic afterwards (first panics of
+			// the lane's life): LastPanic must still be one of them, the queued tasks stay counted
+			var gc []PushSpec
+			for i := 0; i < ls; i++ {
+				gc = append(gc, PushSpec{Lane: i, Task: TaskSpec{Kind: "gatepanic", Panic: ptypes[(i+qs)%5]}})
+			}
+			for i := 0; i < qs*ls; i++ {
+				gc = append(gc, PushSpec{Lane: i % ls, Task: TaskSpec{Kind: "instant"}})
+			}
+			out = append(out, Scenario{LaneSize: ls, QueueSize: qs, TimeoutMs: 3600000, Producers: [][]PushSpec{gc}, Cancel: CancelPlan{Kind: "external"}, Pollers: 1, PostPush: 1})
+			// cancelled with nothing running and nothing ever panicked: LastPanic stays nil
+			out = append(out, Scenario{LaneSize: ls, QueueSize: qs, TimeoutMs: 3600000, Producers: [][]PushSpec{{{Lane: 0, Task: TaskSpec{Kind: "instant"}}}}, Cancel: CancelPlan{Kind: "none"}, PostPush: 1})
+			out = append(out, Scenario{LaneSize: ls, QueueSize: qs, TimeoutMs: 3600000, Producers: [][]PushSpec{nil}, Cancel: CancelPlan{Kind: "none"}, PostPush: 1})
 		}
 	}
 	for i := range out {
@@ -524,6 +598,9 @@ func shapeKey(s Scenario) string {
 	if s.TimeoutUs != 0 {
 		extra += fmt.Sprintf(" tus%d", s.TimeoutUs)
 	}
+	if s.DwellMs > 0 {
+		extra += fmt.Sprintf(" dwell%dms", s.DwellMs)
+	}
 	if s.CtxKind != "" || s.Siblings > 0 || s.Observers > 0 || s.SyncPost > 0 {
 		extra += fmt.Sprintf(" ctx=%s/sib%d/obs%d/sync%d", s.CtxKind, s.Siblings, s.Observers, s.SyncPost)
 	}
@@ -543,6 +620,11 @@ func (mn mon) Run(sh drv.Shard, c *drv.Ctx) {
 		list = rushScenarios(sh.Seed)
 	case "ctx":
 		list = ctxScenarios(sh.Seed)
+	case "dwell":
+		list = dwellScenarios(sh.Seed, []int{1300})
+		if sh.Tier == "thorough" {
+			list = dwellScenarios(sh.Seed, []int{1300, 3100, 11000})
+		}
 	case "status":
 		list = statusScenarios(sh.Seed)
 	case "rand":
